@@ -37,7 +37,7 @@ def strategy(draw, tier):
     case['return_samples'] = True
     case['probe'] = draw(st.sampled_from(['eq', 'ulp+', 'ulp-', 'eq']))
     case['probe_row'] = draw(st.integers(0, 200))
-    case['exact_duration'] = draw(st.integers(0, 3)) == 0
+    case['exact_duration'] = draw(st.integers(0, 2)) > 0
     case['buffer'] = draw(st.integers(0, 4)) == 0
     return case
 
